@@ -54,9 +54,19 @@ def run_worker(modname, ob, extra, tier, scale=1.0):
                 'wall_s': round(time.time() - t0, 2)}
 
 
-def run_replay(modname, obname, args_repr, tier):
+def zero_args(ob):
+    """the 'smallest' argument tuple of an E1 obligation (0 / False / '' per annotation): what CrossHair's first path typically uses"""
+    import inspect
+    out = {}
+    for name, prm in inspect.signature(ob.fn).parameters.items():
+        a = prm.annotation
+        out[name] = False if a is bool else 0 if a is int else 0.0 if a is float else '' if a is str else None
+    return out
+
+
+def run_replay(modname, obname, args_repr, tier, after=None):
     """Re-execute one obligation on concrete arguments in plain CPython (no CrossHair). -> dict(ok, detail, functions)"""
-    cmd = [PY, '-m', 'vlib.replay', modname, obname, args_repr]
+    cmd = [PY, '-m', 'vlib.replay', modname, obname, args_repr] + ([after] if after else [])
     env = dict(os.environ, VERIF_TIER=tier, PYTHONPATH=PYPATH, PYTHONHASHSEED='0')
     try:
         p = subprocess.run(cmd, env=env, cwd=ROOT, capture_output=True, text=True, timeout=300)
@@ -114,6 +124,17 @@ def discharge(modname, pid, ob, tier, known, scale):
             break
         rp = run_replay(modname, ob.name, res['cex'], tier)
         functions.update(rp.get('functions') or [])
+        if rp.get('ok') is True and ob.kind == 'crosshair':
+            # not reproduced in a fresh process: either CrossHair's model diverged, or the failure needs what an EARLIER symbolic
+            # path left behind on a shared object (pre-compiled template, module-level cache).  History replay: the same
+            # counterexample after one earlier call with the smallest arguments, in one process.
+            za = zero_args(ob)
+            for after in (repr(za), repr({k: (True if v is False else 1 if v == 0 and v is not False else 'a' if v == '' else v) for k, v in za.items()})):
+                rp2 = run_replay(modname, ob.name, res['cex'], tier, after=after)
+                if rp2.get('ok') is False:
+                    res['after'] = after
+                    rp = dict(rp2, detail='ONLY after an earlier call of the same obligation with %s in the same process (state kept on a shared compiled object): %s' % (after, rp2.get('detail')))
+                    break
         if rp.get('ok') is True:
             # counterexample does not reproduce on the real code: encoding/model mismatch, exclude it and retry
             log[-1]['model_mismatch'] = True
@@ -187,7 +208,7 @@ def main():
     if a.replay:
         with open(a.replay) as f:
             r = json.load(f)
-        rp = run_replay(modname, r['obligation'], r['args'], r.get('tier', a.tier))
+        rp = run_replay(modname, r['obligation'], r['args'], r.get('tier', a.tier), after=r.get('after'))
         print('replay %s %s -> %s' % (r['obligation'], r['args'], rp))
         if rp.get('ok') is False:
             print('VIOLATION property=%s replay=%s' % (pid, a.replay))
@@ -230,7 +251,7 @@ def main():
             h = hashlib.sha1((o.name + r['cex']).encode()).hexdigest()[:10]
             path = os.path.join(ROOT, 'replays', pid, '%s-%s.json' % (o.name, h))
             with open(path, 'w') as f:
-                json.dump({'property': pid, 'obligation': o.name, 'args': r['cex'], 'tier': a.tier,
+                json.dump({'property': pid, 'obligation': o.name, 'args': r['cex'], 'after': r.get('after'), 'tier': a.tier,
                            'message': r.get('message'), 'detail': r.get('replay_detail'), 'excluded': r.get('excluded')}, f, indent=1)
             violations.append((o.name, path, r))
         elif r['status'] == 'error':
